@@ -160,22 +160,33 @@ ExplainedBy(p, r, s) ==
       t == IF a.auto \/ p.op \in {"iia", "update_ttl"} THEN USucc(s.ts) ELSE T3(a.ts)
   IN \E o \in Outcomes(p.op, a, s, kl, t) : o.res = r /\ (SameRec(o.rec, s) \/ (S!Expired(cfg, s, now) /\ ~o.rec.p))
 
-Refusal(p, r) ==
+Refusal(t, p, r) ==
   \* the two conservative refusals C07 permits, plus what memory pressure and concurrent
   \* rewriting of a persistent extent (C08) allow
   \/ /\ r.tag = "OlderTimestamp"
      /\ IF p.a.auto \/ p.op \in {"iia", "update_ttl"} THEN p.npub > 0
-        ELSE \E s \in p.seen : ~ULt(s.ts, T3(p.a.ts))            \* an equal-or-newer version was around
+        ELSE \/ \E s \in p.seen : ~ULt(s.ts, T3(p.a.ts))         \* an equal-or-newer version was around
+             \* "... when an accepted write or delete with an equal-or-newer timestamp was INVOKED
+             \* before the rejection": a call of another thread on the same key that is still in flight
+             \* (it has already acted on the key: something was published during this call) and carries
+             \* such a timestamp - an automatic one is at least the present time
+             \/ /\ p.npub > 0
+                /\ \E u \in DOMAIN pend :
+                      /\ u # t /\ pend[u].on /\ pend[u].op \in KeyedOps /\ pend[u].a.k = p.a.k
+                      /\ pend[u].op \in {"insert", "delete", "cas", "incr", "patch", "iia", "update_ttl"}
+                      /\ IF pend[u].a.auto \/ pend[u].op \in {"iia", "update_ttl"}
+                         THEN ~ULt(now, T3(p.a.ts))
+                         ELSE ~ULt(T3(pend[u].a.ts), T3(p.a.ts))
   \/ /\ p.op = "cas" /\ r.tag = "bool" /\ r.n = 0 /\ p.npub > 0
   \/ /\ r.tag = "OutOfMemory" /\ cfg.lim >= 0
      /\ p.op \in {"insert", "cas", "incr", "iia", "patch"}
   \/ /\ r.tag = "StaleExtent" /\ cfg.pers /\ p.npub > 0
      /\ p.op \in {"get", "cas", "incr", "patch"}
 
-KeyedResOK(p, r) ==
+KeyedResOK(t, p, r) ==
   IF p.pubbed THEN PubOK(p, r)
   ELSE \/ \E s \in {Strip(x) : x \in p.seen} : ExplainedBy(p, r, s)
-       \/ Refusal(p, r)
+       \/ Refusal(t, p, r)
 
 (* C14 under concurrency *)
 ItemsOf(e) == [i \in 1 .. Len(e.items) |-> [k |-> e.items[i].k, val |-> e.items[i].val]]
@@ -200,7 +211,7 @@ TRes ==
   /\ flags' = IF ~p.on THEN {"protocol"}
               ELSE IF p.op \in KeyedOps THEN
                    (IF p.a.k = 0 THEN (IF r.tag = "InvalidKeySize" THEN {} ELSE {"lin"})
-                    ELSE IF KeyedResOK(p, r) THEN {} ELSE {"lin"})
+                    ELSE IF KeyedResOK(t, p, r) THEN {} ELSE {"lin"})
               ELSE IF p.op = "range" THEN (IF RangeResOK(p, Ev) THEN {} ELSE {"range"})
               \* a flush may fail (full device, I/O error) but never because the extent a deferred
               \* generation takes its bytes from has been retired under it: the flusher is a reader
